@@ -452,7 +452,7 @@ func c01safe(c *an.Ctx) {
 			why = "the SafeWriter wrapper is built around the escaping writer: SafeWriter output would be escaped a second time"
 		case p.FieldKey(info, raw) != "escapeeWriter.Writer" || an.Norm(f, raw) != "$r.Writer":
 			why = "the SafeWriter wrapper's raw writer is " + an.Str(raw) + ", not the runtime's current Writer"
-		case an.Norm(f, sw) != "$p0.Interface().(SafeWriter)":
+		case an.Norm(f, sw) != "$p0.Interface().(SafeWriter)" && !isSafeWriterParam(f, sw):
 			why = "the wrapper's SafeWriter is " + an.Str(sw) + ", not the evaluated command term"
 		default:
 			okLit = true
@@ -755,4 +755,19 @@ func c01default(c *an.Ctx) {
 		}
 		c.Check(ok, "C01.default", "unsafePrinter", up.Pos(), "unsafePrinter writes the bytes unchanged", "unsafePrinter is not `w.Write(b)`")
 	}
+}
+
+// isSafeWriterParam: e is a parameter of f whose type is jet.SafeWriter (the caller has already taken the
+// SafeWriter out of the evaluated term).
+func isSafeWriterParam(f *an.Fn, e ast.Expr) bool {
+	id, ok := an.Unparen(e).(*ast.Ident)
+	if !ok {
+		return false
+	}
+	o := an.ObjOf(f.Info(), id)
+	if o == nil {
+		return false
+	}
+	_, isParam := an.IsParam(f, o)
+	return isParam && an.TypeName(o.Type()) == "jet.SafeWriter"
 }
